@@ -50,6 +50,33 @@ theorem withWidth_value (v : List UInt8) (w : Nat) : leToNat (Const.withWidth v 
 
 theorem cw_self (v : List UInt8) : cw v v.length = v := by simp [cw]
 
+/-! ### `checkAccess` (REPAIR F45) -/
+
+/-- a range inside the address space passes `checkAccess` -/
+theorem accessBad_false {a w : Nat} (h : a + w < 2 ^ 64) : accessBad a w = false := by
+  unfold accessBad
+  rw [Nat.mod_eq_of_lt h]
+  simp
+
+/-- a range (of an address, with a width that fits `uint64`) whose exclusive end is not an address — it is `2^64`
+or it wrapped — does not -/
+theorem accessBad_true {a w : Nat} (ha : a < 2 ^ 64) (hw : w < 2 ^ 64) (h : 2 ^ 64 ≤ a + w) : accessBad a w = true := by
+  unfold accessBad
+  have : (a + w) % 2 ^ 64 = a + w - 2 ^ 64 := by
+    rw [Nat.mod_eq_sub_mod h, Nat.mod_eq_of_lt (by omega)]
+  rw [this]
+  simp only [decide_eq_true_eq]
+  omega
+
+/-- for the accesses of well-formed code, `checkAccess` tests exactly the domain of C14 -/
+theorem accessBad_iff {a w : Nat} (ha : a < 2 ^ 64) (hw : w < 2 ^ 64) : accessBad a w = true ↔ 2 ^ 64 ≤ a + w := by
+  constructor
+  · intro h
+    by_cases hc : a + w < 2 ^ 64
+    · rw [accessBad_false hc] at h; cases h
+    · omega
+  · exact accessBad_true ha hw
+
 /-! ### invariants -/
 
 /-- every register holds a constant -/
